@@ -26,7 +26,7 @@ h4v_sprintf(char *buf, const char *fmt, int n, long a0, const char *s0, long a1,
             while (t > 0) buf[o++] = tmp[--t];
         }
         else {
-#ifdef __CPROVER
+#ifndef H4V_NATIVE
             __CPROVER_assert(0, "H4V-MODEL: unsupported sprintf conversion");
 #endif
         }
